@@ -106,6 +106,14 @@ func checkLib(prop, tier string) {
 		rc1 := runLib(ver, "C14", tier, seed, verifDir, p1)
 		fmt.Println("configuration 2: shipped (tag-off) pkg/dict under Go's own map randomisation")
 		rc2 := runLib(off, "C14", tier, seed, verifDir, p2)
+		if rc1 == 1 || rc2 == 1 { // a replay-confirmed violation in either configuration decides
+			if rc1 < 2 && rc2 < 2 {
+				mergeC14(c, p1, p2)
+			}
+			c.Close()
+			cleanupAll()
+			os.Exit(1)
+		}
 		if rc1 >= 2 || rc2 >= 2 {
 			c.Close()
 			cleanupAll()
@@ -114,9 +122,6 @@ func checkLib(prop, tier string) {
 		mergeC14(c, p1, p2)
 		c.Close()
 		cleanupAll()
-		if rc1 == 1 || rc2 == 1 {
-			os.Exit(1)
-		}
 		fmt.Printf("OK property=C14 tier=%s wall=%.1fs\n", tier, time.Since(c.T0).Seconds())
 		os.Exit(0)
 	}
